@@ -12,7 +12,7 @@ class ExprMixin:
         c = simp(cond)
         if z3.is_false(c): return False
         if z3.is_true(c): return True
-        s = z3.Solver(); s.set("timeout", self.prune_ms)
+        s = z3.Solver(); s.set("timeout", self.prune_ms); s.set("arith.nl", False)
         s.add(self.assume); s.add(c)
         self.stats["prune_queries"] += 1
         return s.check() != z3.unsat
@@ -105,7 +105,7 @@ class ExprMixin:
         got = w.module_const(self.cur_mod, name)
         if got is not None:
             node_, mod = got
-            return self.const_eval(node_, mod)
+            return self.const_eval(node_, mod, st)
         if name in w.functions:
             fn, mod = w.functions[name]
             return VClosure(fn, {}, None, name)
@@ -114,11 +114,11 @@ class ExprMixin:
             return VClass(name)
         raise Unsupported(f"name {name} @ {self.where(node)}")
 
-    def const_eval(self, node, mod):
-        """module-level constants: literals, tuples, dicts, simple arithmetic"""
+    def const_eval(self, node, mod, st=None):
+        """module-level constants: literals, tuples, dicts, simple arithmetic (re-evaluated at each use, in the current heap)"""
         saved = self.cur_mod; self.cur_mod = mod
         try:
-            st = State(T, {}, {}, [])
+            st = State(T, {}, st.heap if st is not None else {}, [])
             if isinstance(node, ast.Dict):
                 pres, vals = {}, {}
                 for k, v in zip(node.keys, node.values):
@@ -177,7 +177,9 @@ class ExprMixin:
                 vals = [v for _, v in self.w.enum_members(base.cls)]
                 t = z3.StringVal(vals[-1])
                 for i in range(len(vals) - 2, -1, -1): t = ITE(base.idx == i, z3.StringVal(vals[i]), t)
-                r = VStr(None, simp(t)); r.enumsrc = base
+                t = simp(t)
+                r = VStr(t.as_string(), None) if z3.is_string_value(t) else VStr(None, t)
+                r.enumsrc = base
                 return r
             found = self.w.lookup(base.cls, attr)
             if found:
@@ -214,6 +216,11 @@ class ExprMixin:
         def go(i, s):
             v = self.ev(n.values[i], s)
             if i == len(n.values) - 1: return v
+            # peephole: `x or 0` is x for a finite number x (0 and -0.0 are the same real) — keeps terms syntactically simple
+            if (not is_and and i == len(n.values) - 2 and isinstance(n.values[i + 1], ast.Constant) and n.values[i + 1].value == 0
+                    and not isinstance(n.values[i + 1].value, bool)):
+                vv = v.inner if (isinstance(v, VOpt) and z3.is_false(simp(v.none))) else v
+                if isinstance(vv, VNum) and z3.is_int_value(vv.sp) and vv.sp.as_long() == 0: return vv
             t = simp(self.truth(v, s))
             c = t if is_and else NOT(t)
             return self.cond_eval(s, c, lambda s2: go(i + 1, s2), lambda s2: v)
@@ -253,6 +260,8 @@ class ExprMixin:
             return VStr(None, fresh("fmt", z3.StringSort()))
         if isinstance(a, (VList, VTuple)) and isinstance(b, (VList, VTuple)) and isinstance(op, ast.Add):
             return type(a)(a.items + b.items)
+        if isinstance(op, ast.Mult) and isinstance(a, (VTuple, VList)) and isinstance(b, VNum) and self.concrete(b) is not None:
+            return type(a)(a.items * int(self.concrete(b)))
         if isinstance(op, ast.BitOr) and isinstance(a, VClass) and isinstance(b, VClass):
             return VTuple([a, b])
         if isinstance(op, ast.BitOr) and isinstance(a, VTuple) and isinstance(b, VClass):
@@ -425,6 +434,7 @@ class ExprMixin:
                     self.dict_set(d, kk, src.vals[kk], src.present[kk])
             else:
                 kk = self.ev(k, st)
+                if isinstance(kk, VEnum) and z3.is_int_value(simp(kk.idx)): kk = VStr(f"{kk.cls}#{simp(kk.idx).as_long()}")
                 if not (isinstance(kk, VStr) and kk.py is not None): raise Unsupported("non-concrete dict key")
                 self.dict_set(d, kk.py, self.ev(v, st), T)
         return st.alloc("dict", {"$d": d})
@@ -547,6 +557,7 @@ class ExprMixin:
         raise Unsupported(f"subscript of {type(base).__name__} @ {self.where(n)}")
 
     def dict_getitem(self, d, key, st, n=None):
+        if isinstance(key, VEnum) and z3.is_int_value(simp(key.idx)): key = VStr(f"{key.cls}#{simp(key.idx).as_long()}")
         if not (isinstance(key, VStr) and key.py is not None):
             if isinstance(key, VStr):
                 # symbolic key over a concrete-key dict: case split
